@@ -414,7 +414,7 @@ def run(tier, seed):
             break
         mism += len(f)
         for j in f[:2]:
-            rep.violation("decorator:model-mismatch", {"broken": "correspondence impl<->Model/Decorator.v (dexec): global event log", "case": sh[j][:4000]}, no_input=not fails)
+            rep.violation("decorator:model-mismatch", {"broken": "correspondence impl<->Model/Decorator.v (dexec): global event log", "case": sh[j][:4000]}, no_input=not rep.has_failing_input())
     rep.cov["traces_validated_against_impl"] = len(texts)
     rep.notes["model_mismatches"] = mism
     import kwprobe
